@@ -66,16 +66,22 @@ def build_lean(modules):
         # the state machine of the *source* is translated to Lean on every run (Spec/FsmSrcGen.lean); Proofs/FsmSrcTie.lean proves
         # that the hand-written model is this function. If the source can no longer be translated the generated file is replaced
         # by one that does not compile, so that the tie is reported as broken rather than silently kept from an older run.
-        gen = os.path.join(LEAN, 'FastPasta', 'Spec', 'FsmSrcGen.lean')
-        rc0, out0 = sh([sys.executable, os.path.join(ROOT, 'tools', 'src2lean.py'),
-                        os.path.join(REPO, 'fastpasta', 'src', 'analyze', 'validators', 'its', 'its_payload_fsm_cont.rs'),
-                        os.path.join(REPO, 'fastpasta', 'src', 'words', 'its', 'status_words'), gen])
-        if rc0 != 0:
-            msg = out0.strip().replace('\n', ' ')[:400].replace('-/', '- /')
-            open(gen, 'w').write('import FastPasta.Model.Fsm\n/- ' + msg + ' -/\nnamespace FastPasta\nnamespace SrcFsm\n'
-                                 'theorem source_not_translatable : False := by decide\nend SrcFsm\nend FastPasta\n')
+        tlog = ''
+        for tool, srcs, genname, imp, ns in (
+                ('src2lean.py', [os.path.join(REPO, 'fastpasta', 'src', 'analyze', 'validators', 'its', 'its_payload_fsm_cont.rs'),
+                                 os.path.join(REPO, 'fastpasta', 'src', 'words', 'its', 'status_words')], 'FsmSrcGen.lean', 'FastPasta.Model.Fsm', 'SrcFsm'),
+                ('alpide2lean.py', [os.path.join(REPO, 'fastpasta', 'src', 'words', 'its', 'alpide', 'alpide_word.rs'),
+                                    os.path.join(REPO, 'fastpasta', 'src', 'analyze', 'validators', 'its', 'alpide', 'lane_alpide_frame_analyzer.rs')],
+                 'AlpideSrcGen.lean', 'FastPasta.Spec.AlpideSrc', 'SrcAlpide')):
+            gen = os.path.join(LEAN, 'FastPasta', 'Spec', genname)
+            rc0, out0 = sh([sys.executable, os.path.join(ROOT, 'tools', tool)] + srcs + [gen])
+            if rc0 != 0:
+                msg = out0.strip().replace('\n', ' ')[:400].replace('-/', '- /')
+                open(gen, 'w').write(f'import {imp}\n/- ' + msg + f' -/\nnamespace FastPasta\nnamespace {ns}\n'
+                                     'theorem source_not_translatable : False := by decide\nend ' + ns + '\nend FastPasta\n')
+                tlog += out0
         rc, out = sh(['lake', 'build', 'fpdriver'] + list(modules), cwd=LEAN, timeout=3600)
-        return rc == 0, (out0 if rc0 != 0 else '') + out
+        return rc == 0, tlog + out
 
 
 def build_impl():
